@@ -140,6 +140,9 @@ type side struct {
 	canaries []string
 }
 
+// c13Memberships counts fixtures in which the attacker really holds an admin membership elsewhere.
+var c13Memberships atomic.Int64
+
 type fixture struct {
 	env      *boot.Env
 	A, B     side
@@ -225,6 +228,15 @@ func (w *c13Worker) buildFixture(ei int) (*fixture, error) {
 	}
 	if f.A, err = mk(pa, "a", w.malc[ei]); err != nil {
 		return nil, fmt.Errorf("fixture A: %w", err)
+	}
+	// the attacker is a legitimate ADMIN member of a third project of the victim's owner:
+	// a role held in one project must not count in another
+	if pc, err := env.Admin.CreateProject(ctx, fmt.Sprintf("team-c-%d", n)); err == nil {
+		if tok, err := env.Admin.CreateInvite(ctx, pc.Name, "admin", api.InviteExpireOption_INVITE_EXPIRE_OPTION_SEVEN_DAYS); err == nil {
+			if _, err := w.malc[ei].AcceptInvite(ctx, tok); err == nil {
+				c13Memberships.Add(1)
+			}
+		}
 	}
 	env.WaitIdle()
 	return f, nil
@@ -556,6 +568,9 @@ func (w *c13Worker) Run(idx int) runner.CaseResult {
 		r := w.call(env, p, build(a), a.headers)
 		env.WaitIdle()
 		res.AddStat("foreign_calls", 1)
+		if m := c13Memberships.Swap(0); m > 0 {
+			res.AddStat("fixtures_with_attacker_admin_membership_elsewhere", m)
+		}
 		res.AddSet("reject_codes", r.code)
 		after := f.digest(&f.B)
 		if c := containsCanary(r.body, f.B.canaries); c != "" {
